@@ -488,6 +488,15 @@ func (o *operation) validate(transcoder *Transcoder) error {
 	return nil
 }
 
+// decompressLimit returns the maximum number of bytes that decompressing a
+// single message may produce, or -1 if there is no limit.
+func (o *operation) decompressLimit() int64 {
+	if o.methodConf == nil || o.methodConf.serviceOptions == nil {
+		return -1
+	}
+	return int64(o.methodConf.maxMsgBufferBytes)
+}
+
 // restoreContentLength undoes the reset done by validate, for requests that
 // are forwarded without transformation.
 func (o *operation) restoreContentLength() {
@@ -1582,7 +1591,7 @@ func (w *envelopingWriter) handleTrailer() error {
 	if w.trailerIsCompressed && data.Len() > 0 {
 		uncompressed := w.rw.op.bufferPool.Get()
 		defer w.rw.op.bufferPool.Put(uncompressed)
-		if err := w.rw.op.server.respCompression.decompress(uncompressed, data); err != nil {
+		if err := w.rw.op.server.respCompression.decompressLimited(uncompressed, data, w.rw.op.decompressLimit()); err != nil {
 			return err
 		}
 		data = uncompressed
@@ -1711,7 +1720,7 @@ func (w *transformingWriter) flushMessage() error {
 		if w.latestEnvelope.compressed && w.buffer.Len() > 0 {
 			data = w.rw.op.bufferPool.Get()
 			defer w.rw.op.bufferPool.Put(data)
-			if err := w.rw.op.server.respCompression.decompress(data, w.buffer); err != nil {
+			if err := w.rw.op.server.respCompression.decompressLimited(data, w.buffer, w.rw.op.decompressLimit()); err != nil {
 				return err
 			}
 		}
@@ -1799,7 +1808,7 @@ func (e *errorWriter) Close() error {
 	if compressPool := e.rw.op.server.respCompression; compressPool != nil && body.Len() > 0 {
 		uncompressed := bufferPool.Get()
 		defer bufferPool.Put(uncompressed)
-		if err := compressPool.decompress(uncompressed, body); err != nil {
+		if err := compressPool.decompressLimited(uncompressed, body, e.rw.op.decompressLimit()); err != nil {
 			// can't really just return an error; we have to encode the
 			// error into the RPC response, so we populate respMeta.end
 			if e.respMeta.end.httpCode == 0 || e.respMeta.end.httpCode == http.StatusOK {
@@ -2076,7 +2085,7 @@ func (m *message) decompress(op *operation) error {
 		return nil
 	}
 	tmp := op.bufferPool.Get()
-	if err := pool.decompress(tmp, m.buf); err != nil {
+	if err := pool.decompressLimited(tmp, m.buf, op.decompressLimit()); err != nil {
 		op.bufferPool.Put(tmp)
 		return err
 	}
